@@ -69,7 +69,7 @@ func runChild() {
 			return o
 		}()
 		after := heapAllocs(sample)
-		fmt.Fprintf(w, "R %d %d %s\n", idx, after-before, lib.Show(out))
+		fmt.Fprintf(w, "R %d %d %s\t%s\n", idx, after-before, lib.Show(out), lib.Show(oracleTerm(refCalls)))
 		if after-before > 32<<20 {
 			// the Go runtime never unmaps heap arenas: leave the rest to a fresh process, so that the
 			// address-space limit keeps measuring one decode and not the history of the process
@@ -167,7 +167,7 @@ func (h *H) decodeInChild(inputs []minput) {
 			return
 		}
 		m := inputs[next+bad]
-		in := decodeIn(m.op, m.hc, m.kind, m.bs)
+		in := decodeIn(m.op, m.hc, m.kind, m.bs, lib.L())
 		tail := stderr.String()
 		if len(tail) > 600 {
 			tail = tail[:600]
@@ -197,7 +197,11 @@ func entryName(m minput) string {
 }
 
 func (h *H) childResult(m minput, alloc uint64, term string) {
-	in := decodeIn(m.op, m.hc, m.kind, m.bs)
+	oracle := lib.L()
+	if i := strings.IndexByte(term, '\t'); i >= 0 {
+		oracle, term = parseTerm(term[i+1:]), term[:i]
+	}
+	in := decodeIn(m.op, m.hc, m.kind, m.bs, oracle)
 	if strings.HasPrefix(term, "(2 ") { // a panic inside the decoder
 		h.roundtrip("panic:decode", in, m.tag+" "+entryName(m)+": "+term)
 		h.o.Stats["mal-panicked"]++
